@@ -53,6 +53,17 @@ CLAIMED = {
         note="Trusted: Lean kernel (propext, Classical.choice, Quot.sound); 'no hidden interpreter state' and 'all hash seeds/processes' rest on the behavioural tie over the "
              "generated and pooled scripts; setscan.py is a heuristic inventory.",
         technique="Lean 4 permutation-invariance theorem + multi-process hash-seed/history correspondence", ref="4/C10"),
+    "C11": dict(
+        text="Lean theorems about the model of `_eval_const`, the only component that computes with the user's text: non-interference (whenever evaluation succeeds its "
+             "result is independent of what any non-whitelisted node — attribute access, foreign call, lambda, subscript, comprehension … — would do, so none was "
+             "evaluated), such nodes and unknown calls raise ValueError, names resolve only in the constant environment, and a structural size bound for expressions "
+             "without ** and << (false with **: counterexample). The evaluator model is tied to the real `_eval_const` on generated expression trees; the run-time "
+             "claims are decided by an audit tie: parse()/emit() in audited subprocesses (sys.addaudithook, canary file, 5 s limit) on feature scripts, hostile "
+             "expressions in every argument position, valid-Python torture inputs, the repo's own sources, byte noise and mutations; plus a no-state-between-calls test.",
+        note="Trusted: Lean kernel (propext, Classical.choice, Quot.sound). PARTIAL: 'no file/process/network access', 'terminates promptly', 'only ValueError/SyntaxError' "
+             "and 'no state mutation' are interpreter-level facts the model cannot exhibit; they rest on the audit tie over the generated inputs. Floats, true division "
+             "and & | ^ are outside the evaluator model. Known findings K11a (pow/shift bomb), K11b (non-Python accepted), K11c (RecursionError), K11d (IndexError).",
+        technique="Lean 4 non-interference theorem on the evaluator model + differential tie + audited-subprocess oracle", ref="4/C11"),
     "C12": dict(
         text="Theorems over the effect model of target() for every scenario (pair valid?, upload?, PlatformIO present?, Servo note?, 10 fault points), proved by kernel "
              "decide; the model is tied to the real target() by an exhaustive differential run of the whole scenario space x 5 scripts with subprocess/tempfile/pathlib "
